@@ -1568,6 +1568,31 @@ def c20(tier):
             scs.append({"sc": "fault-%d-%d" % (i, k), "hex": b.hex(), "handles": 2, "steps": steps})
             nn += 1
     rep.notes["nested_and_fault_scenarios"] = nn
+    # handles that FAIL to open an entry another handle has open (wrong password, missing password, unsupported method): nothing the
+    # first handle observes may change, and a wrong password must stay wrong after another handle used the right one
+    pw = b"clone-pw"
+    eents = [{"name": b"plain", "method": 8, "data": b"plain entry " * 9},
+             {"name": b"zc", "method": 0, "data": b"zipcrypto entry", "enc": ("zc", pw)},
+             {"name": b"aes", "method": 8, "data": b"aes entry " * 12, "enc": ("aes", 2, 3, pw)},
+             {"name": b"lzma", "method": 14, "data": b"cannot decode this"}]
+    eb, ev_ = refzip.build({"entries": eents})
+    ed = [e["data"] for e in ev_["entries"]]
+
+    def rd(i, h):
+        return {"h": h, "op": "read", "k": 100000, "plen": len(ed[i]), "pcrc": crc_hex(ed[i])}
+    R, W = pw.hex(), b"not-the-password".hex()
+    fam = []
+    for i in (1, 2):
+        fam.append([{"h": 0, "op": "open", "i": i, "pw": R, "pwkind": "right"}, {"h": 0, "op": "stat"}, {"h": 1, "op": "open", "i": i, "pw": W, "pwkind": "wrong"},
+                    {"h": 0, "op": "stat"}, {"h": 1, "op": "open", "i": i, "pwkind": "none"}, {"h": 0, "op": "stat"}, rd(i, 0),
+                    {"h": 1, "op": "open", "i": i, "pw": W, "pwkind": "wrong"}, {"h": 2, "op": "open", "i": i, "pw": W, "pwkind": "wrong"},
+                    {"h": 2, "op": "open", "i": i, "pw": R, "pwkind": "right"}, rd(i, 2)])
+        fam.append([{"h": 1, "op": "open", "i": i, "pw": W, "pwkind": "wrong"}, {"h": 0, "op": "open", "i": i, "pw": R, "pwkind": "right"}, rd(i, 0),
+                    {"h": 1, "op": "open", "i": i, "pw": W, "pwkind": "wrong"}])
+    fam.append([{"h": 0, "op": "open", "i": 3, "raw": True}, {"h": 0, "op": "stat"}, {"h": 1, "op": "open", "i": 3}, {"h": 0, "op": "stat"},
+                {"h": 1, "op": "open", "i": 0}, rd(0, 1), {"h": 0, "op": "stat"}])
+    for k, steps in enumerate(fam):
+        scs.append({"sc": "failopen-%d" % k, "hex": eb.hex(), "handles": 3, "steps": steps})
     # random longer interleavings
     for i in range(60 if tier == "quick" else 1500):
         nh = rnd.randint(2, 6)
@@ -2048,7 +2073,8 @@ def c18(tier):
         cases.append({"sc": "arc-ctor%04d" % i, "kind": "archive_ctor", "args": [list(a) for a in acc]})
         ws = [(rnd.randrange(65536), rnd.randrange(65536)) for _ in range(24)] + [(0, 0), (0xFFFF, 0xFFFF), (0x21, 0)]
         cases.append({"sc": "arc-words%04d" % i, "kind": "archive_words", "w": [list(w) for w in ws]})
-        ents = [{"name": b"t%d" % k, "method": rnd.choice([0, 8]), "data": b"x" * k, "date": rnd.randrange(65536), "time": rnd.randrange(65536)} for k in range(12)]
+        ents = [{"name": b"t%d" % k, "method": rnd.choice([0, 8]), "data": b"x" * k, "date": rnd.randrange(65536), "time": rnd.randrange(65536),
+                 "system": rnd.choice([3, 3, 0, 7]), "eattr": rnd.choice([0o100644 << 16, 0, 0x20, 0o40755 << 16])} for k in range(12)]
         b, v = refzip.build({"entries": ents})
         cases.append({"sc": "foreign%04d" % i, "kind": "foreign", "hex": b.hex()})
     progs = os.path.join(wd, "dostime-cases.ndjson")
@@ -2367,6 +2393,13 @@ def zip64_scenarios(tier, rnd):
             if tier == "quick" and (sz, large) in ((T - 1, True), (T + 1, False), (T + 1, True)):
                 continue
             scs.append(big_entry("size-%d-%s" % (sz, "large" if large else "plain"), sz, large, comment="zip64" if sz % 2 else None))
+    # the same limit for a compressing method (the compressed size stays tiny, so only the write-side rule can refuse it)
+    for sz in ([T] if tier == "quick" else [T - 1, T, T + 1]):
+        ops = [{"op": "start", "name": "z", "large": False, "method": 93}, {"op": "zeros", "n": sz, "head": "", "tail": ""}, {"op": "finish"}]
+        s = writer_sc("size-%d-plain-zstd" % sz, ops, select=[1])
+        if sz <= T - 1:
+            s["expect"]["sizes"] = [{"i": 1, "usize": _big(sz), "crc": zc.crc(sz)}]
+        scs.append(s)
     # header offset of the following entry / start of the directory exactly at the limit and either side:
     # local header of "big" = 30 + 3 (+20 if large); data ends at hdr + size
     offs = [T - 1, T] if tier == "quick" else [T - 2, T - 1, T, T + 1]
@@ -2745,6 +2778,21 @@ def c05(tier):
                 at = rnd.randrange(n - 3)
                 x[at:at + 4] = rnd.choice([b"PK\x05\x06", b"PK\x01\x02", b"PK\x03\x04", b"PK\x06\x06", b"PK\x06\x07", b"PK\x07\x08"])
         add(seeds[0][0], "arbitrary", [["raw", bytes(x).hex()]])
+    # tiny inputs around the end record: an end record at offsets 0..24 with a comment and trailing bytes such that the
+    # position probed for the ZIP64 locator (counted from the END of the input) holds a locator signature
+    import struct
+    for at in range(0, 25, 1 if not quick else 2):
+        for clen in (0, 1, 7):
+            for trailing in range(0, 70, 1 if not quick else 3):
+                body = bytearray(bytes(at) + struct.pack("<IHHHHIIH", 0x06054b50, 0, 0, 0, 0, 0, 0, clen) + b"c" * clen + bytes(trailing))
+                probe = len(body) - (42 + clen)
+                if probe < 0:
+                    continue
+                loc = struct.pack("<IIQI", 0x07064b50, 0, rnd.choice([0, 1, at, len(body), 1 << 40, (1 << 64) - 1]), 1)
+                body[probe:probe + 20] = loc[:max(0, min(20, len(body) - probe))]
+                if len(body) - probe < 20:
+                    body = body[:probe] + loc[:len(body) - probe]
+                add(seeds[0][0], "tail-trick", [["raw", bytes(body).hex()]])
     rep.notes["cases_by_class"] = {}
     for c in cases:
         rep.notes["cases_by_class"][c["cls"]] = rep.notes["cases_by_class"].get(c["cls"], 0) + 1
